@@ -16,7 +16,8 @@ EXPLANATION = (
     "exception). R03.2 merge step: the per-slot cascade of next_evmux is evaluated over all relations of (cached event, best so far) "
     "{null, <, = same UID, = other UID, >} and must give {skip, replace, consume-duplicate, keep, keep}; slot/stream index pairing; the "
     "scan covers all slots; end-of-stream only when all slots are null; the returned event comes from the cache. R03.3 construction: "
-    "heap arrays indexed below a capacity are allocated as capacity * sizeof(element).")
+    "heap arrays indexed below a capacity are allocated as capacity * sizeof(element). R03.4: all rule streams made for one event by "
+    "__make_evrrul start from the same proto state (event, zone, scale, empty cache) - sibling agreement of the per-rule initialisers.")
 NOT_DECIDED = "completeness of the merge over whole streams (induction over run-time stream contents); the behaviour itself"
 TRUSTED = ["clang 14 parser/CFG builder", "echse-facts extractor", "python rule engines in /verif/sa"]
 LEVEL_TEXT = ("Static verdict on necessary structural clauses of C03: peek purity of all stream classes on every path, the complete "
